@@ -269,9 +269,18 @@ OPS_W = [("read_value", 18), ("read_error", 14), ("set_conf", 8), ("set_range", 
          ("set_gsize", 2), ("set_src", 3)]
 
 
+TINY_W = [("read_value", 20), ("read_error", 12), ("recalc", 10), ("set_size", 8), ("reset_size", 4), ("samples", 8),
+          ("inspect", 4), ("use_mode", 5), ("use_mean_std", 4), ("use_custom", 3), ("set_conf", 3), ("set_gsize", 4)]
+
+
 def gen_op(rng, sess, case):
-    names = [n for n, _ in OPS_W]
-    t = rng.choices(names, weights=[w for _, w in OPS_W])[0]
+    table = TINY_W if case.get("tiny") else OPS_W
+    names = [n for n, _ in table]
+    t = rng.choices(names, weights=[w for _, w in table])[0]
+    if case.get("tiny") and t == "set_size":
+        return [t, ["int", rng.choice([0, 1, 2, 3])]]
+    if case.get("tiny") and t == "set_gsize":
+        return [t, rng.choice([1, 2, 3, 4])]
     if t in ("read_value", "read_error", "use_mean_std", "reset_size", "recalc", "samples", "inspect"):
         return [t]
     if t == "set_conf":
@@ -292,7 +301,7 @@ def gen_op(rng, sess, case):
         return [t, v, e]
     if t == "set_size":
         if rng.random() < 0.72:
-            return [t, ["int", rng.choice([0, 1, 2, 3, 5, 8, 16, 33, 64])]]
+            return [t, ["int", rng.choice([0, 1, 2, 3, 5, 8] if case.get("small") else [0, 1, 2, 3, 5, 8, 16, 33, 64])]]
         return [t, rng.choice([["int", -1], ["float", fx(2.5)], ["str", "8"], ["none"], ["float", fx(8.0)]])]
     if t == "mutate":
         cands = [(j, len(a)) for j, a in enumerate(sess.handed) if len(a) > 0]
@@ -301,7 +310,7 @@ def gen_op(rng, sess, case):
         j, n = rng.choice(cands)
         return [t, j, rng.randrange(n), fx(dy(rng, -100, 100))]
     if t == "set_gsize":
-        return [t, rng.choice([4, 6, 8, 12, 20, 32, 48])]
+        return [t, rng.choice([4, 6, 8, 12] if case.get("small") else [4, 6, 8, 12, 20, 32, 48])]
     if t == "set_src":
         singles = [i for i, s in enumerate(case["sources"]) if s["kind"] == "single"]
         if not singles:
@@ -332,12 +341,29 @@ def sensitive_now(sess, exact_formula):
 def gen_history_case(rng, seed, corr_profile=False):
     k = rng.choice([1, 1, 2, 2, 3])
     allow_div = rng.random() < 0.35
-    case = {"seed": seed, "okind": rng.choice(mc.OFFSET_KINDS), "g": rng.choice([8, 12, 16, 24, 32, 48]),
-            "sources": [mc.gen_source(rng) for _ in range(k)], "corr": [],
-            "defs": mc.gen_defs(rng, k, allow_div=allow_div), "method": rng.choice(["global", "own"]), "ops": []}
+    sources = [mc.gen_source(rng) for _ in range(k)]
+    tiny = rng.random() < 0.15
+    if tiny:    # sqrt of a value near 0 with 1-3 draws: whole simulations are undefined, the next one is not
+        k = 1
+        sources = [{"kind": "single", "value": fx(rng.choice([0.0, 0.25, -0.25, 0.5])), "error": fx(1.0)}]
+    # readings-based sources carry 53-bit uncertainties: keep the exact arithmetic of the model small for them
+    small = any(s["kind"] == "repeated" for s in sources)
+    if small:
+        allow_div = False
+    case = {"seed": seed, "okind": rng.choice(mc.OFFSET_KINDS), "g": rng.choice([8, 12] if small else [8, 12, 16, 24, 32, 48]),
+            "sources": sources, "corr": [], "small": small,
+            "defs": mc.gen_defs(rng, k, allow_div=allow_div, depth=2 if small else 3),
+            "method": rng.choice(["global", "own"]), "ops": []}
+    if tiny:
+        case["defs"] = [rng.choice([["sqrtsq", ["var", 0]], ["add", ["sqrtsq", ["var", 0]], ["cst", fx(1.0)]],
+                                    ["mul", ["sqrtsq", ["var", 0]], ["var", 0]]])]
+        case["g"] = rng.choice([1, 2, 3])
+        case["tiny"] = True
+        case["okind"] = rng.choice(["uniform", "coarse", "two"])
     if allow_div and rng.random() < 0.5:
         case["okind"] = "coarse"
-    exact_formula = not any(mc.tree_has(d, "div", case["defs"]) for d in case["defs"]) and \
+    exact_formula = not any(mc.tree_has(d, "div", case["defs"]) or mc.tree_has(d, "sqrtsq", case["defs"])
+                            for d in case["defs"]) and \
         all(s["kind"] == "single" for s in case["sources"])
     script = mc.Script(seed, case["okind"])
     obs, why = [], None
@@ -370,6 +396,8 @@ def history_features(case, run):
                 tags.add("range-set")
         if o[0] in ("read_value", "read_error") and ob[1] is None:
             tags.add("undefined-result")
+        if o[0] == "samples" and not ob[1]:
+            tags.add("empty-sample-set")
         if w2:
             tags.add("warn10")
         tags.add(o[0])
@@ -459,7 +487,14 @@ def correspondence(ctx):
         index.append(("history", k))
 
     bads, logs = coq.run_case_files(ID, shards, keep=getattr(ctx, "keep_cases", False))
+    total_bad = sum(len(b[0]) for b in bads if b)
+    res.extra["disagreeing_cases_total"] = total_bad
+    per_kind = {}
     for (kind, base), bad, log in zip(index, bads, logs):
+        if bad is not None:      # report at most 6 disagreements per kind (the total is in the evidence)
+            keep = max(0, 6 - per_kind.get(kind, 0))
+            per_kind[kind] = per_kind.get(kind, 0) + len(bad[0])
+            bad = [bad[0][:keep]]
         if bad is None:
             res.disagreements.append({"name": "case file did not evaluate ({} shard at {}): {}".format(
                 kind, base, log.strip().split("\n")[-1][:200]), "case": None})
@@ -624,7 +659,7 @@ def check_reported(sess, S):
 
 
 PRESERVING = {"read_value", "read_error", "set_conf", "set_range", "use_mode", "use_mean_std", "use_custom", "samples",
-              "inspect", "mutate", "reset_size", "set_gsize"}
+              "inspect", "mutate", "set_gsize"}
 
 
 def check_history_oracle(case, total_formula=None):
@@ -672,10 +707,11 @@ def _check_history_oracle(case, total_formula=None):
                     if drew or len(S) != len(S_prev) or any(a != b for a, b in zip(S, S_prev)):
                         return ("step {} {}: the stored sample set changed although only confidence / range / strategy / "
                                 "reads were involved".format(idx, o))
-                if o[0] == "recalc" or (o[0] == "set_size" and ok):
+                if o[0] in ("recalc", "reset_size") or (o[0] == "set_size" and ok):
                     if not drew:
                         return "step {} {}: no new samples were drawn".format(idx, o)
-                    want = (pv_num(o[1]) or q.get_settings().monte_carlo_sample_size) if o[0] == "set_size" else eff_before
+                    g_now = q.get_settings().monte_carlo_sample_size
+                    want = (pv_num(o[1]) or g_now) if o[0] == "set_size" else (g_now if o[0] == "reset_size" else eff_before)
                     if total_formula and len(S) != want:
                         return "step {} {}: {} samples retrieved, configured size is {}".format(idx, o, len(S), want)
                     if calls_now - calls_prev < k:
